@@ -11,6 +11,7 @@ COMPONENTS = {
                 targets=[("idx0", "idx.cpp", "-DIDX_GROUP=0"), ("idx1", "idx.cpp", "-DIDX_GROUP=1"), ("idx2", "idx.cpp", "-DIDX_GROUP=2")]),
     "dyn": dict(driver_mode="dyn", targets=[("dyn", "dyn.cpp", "")]),
     "var": dict(driver_mode="var", targets=[("var", "var.cpp", "")]),
+    "map": dict(driver_mode="map", targets=[("map", "map.cpp", "")]),
 }
 
 TRUSTED_COMMON = [
@@ -47,6 +48,10 @@ PROPS = {
              nontrivial=lambda line: len(line.split("|")[1].split()) >= 2),
     "C10": P(comp="var", gen=lambda t, s: gens.gen_var(t, s, "EF"), judges=["C10"], kinds=("EFI",),
              nontrivial=lambda line: len(line.split("|")[1].split()) >= 2),
+    "C11": P(comp="map", gen=lambda t, s: gens.gen_map(t, s), judges=["C11"], kinds=("MAP",),
+             nontrivial=lambda line: len(line.split("|")[1].split()) >= 3),
+    "C12": P(comp="map", gen=lambda t, s: gens.gen_map(t, s + 4), judges=["C12"], kinds=("MAP",),
+             nontrivial=lambda line: len(line.split("|")[1].split()) >= 3),
     "C03": P(comp="idx", gen=lambda t, s: gens.gen_seg(t, s), judges=["C03"], kinds=("SEG",),
              nontrivial=lambda line: len(line.split("|")[1].split()) >= 3),
     "C04": P(comp="idx", gen=lambda t, s: gens.gen_seg(t, s + 5), judges=["C04"], kinds=("SEG",),
